@@ -183,6 +183,7 @@ static void cycle(size_t width, unsigned char *ar[], int n) {
         }
         width -= l;
     }
+    ar[n] = NULL; /* do not leave a pointer to the local scratch behind */
 }
 
 /* shl() and shr() need n > 0 */
